@@ -114,7 +114,8 @@ def run_c11(tier, seed, replay):
     flat = [l for l in laws if gen.depth(l["lhs"]) == 0 and gen.depth(l["rhs"]) == 0]
     hyb = [l for l in laws if l not in flat]
     cheap_flat = [l for l in flat if not (EXPENSIVE & (gen.ops(l["lhs"]) | gen.ops(l["rhs"])))]
-    cheap_hyb = [l for l in hyb if l["id"] in ("steady_EX", "steady_AX", "pat_steady", "dom_exists", "dom_forall")]
+    cheap_hyb = [l for l in hyb if l["id"] in ("steady_EX", "steady_AX", "pat_steady", "dom_exists", "dom_forall", "bind_jump", "exists_var",
+                                                "forall_imp", "dual_forall", "dom_bind_leaf", "dom_exists_var", "dom_exists_and", "dom_forall_imp")]
     M010, M022 = "test/model-010-13var-2in.aeon", "test/model-022-17var-5in.aeon"
     MYE, CC = "benchmark_models/pystablemotifs-models/myeloid.aeon", "benchmark_models/pystablemotifs-models/cell_cycle_2016.aeon"
     units = [(M010, 0, flat, True), (M010, 1, hyb if thorough else cheap_hyb, False), (MYE, 0, flat, True), (CC, 0, flat, True),
@@ -191,7 +192,7 @@ def run_c11(tier, seed, replay):
     return runner.report("C11", tier, seed, t0, items, verdicts, ["denote", "equal", "law"], stats,
                          {"samples": samples, "laws": len(laws), "oracle_laws": len(oracles), "big_models": models_info,
                           "obligations": proved, "discharged": proved, "checker_cmd": "tlapm --threads 4 spec/Proofs.tla",
-                          "proofs": "TLAPS: AX/EX duality, monotonicity, self-loop identity, EU unfolding step, AX => EX on total structures, for arbitrary S and K",
+                          "proofs": "TLAPS: AX/EX duality, monotonicity, distribution over union / intersection, self-loop identity, EU / EG unfolding steps, until with an empty argument, AX => EX and EX true on total structures, binder laws (bind_jump, exists_var, forall_imp, dom_bind_leaf, dom_exists_var/and, dom_forall_imp) and README domain equivalences, for arbitrary S and K",
                           "mode_A": {"structures_up_to_states": 3 if thorough else 2, "states": da,
                                      "modules": "MC_Laws (every law on all small Kripke structures), MC_Saturation (saturation loop as written = least fixed point = constrained backward reachability, all argument pairs on small networks)"},
                           "rule": "mode A: every law of spec/Laws.tla on all total Kripke structures up to the bound x all argument sets (TLC); small networks: both sides of every law evaluated through the API with random argument sets and judged against Hctl.Sat and equal; bundled benchmark models: the TLC-exported catalogue instantiated with pseudo-random argument sets, BDD equality logged and checked by spec/Trace_Laws.tla; EF/AG/EU also against reach_backward / trap_forward / Reachability::reach_bwd"},
